@@ -118,7 +118,7 @@ def parse_kani_log(text):
     m = re.search(r"Verification Time: ([\d.]+)s", text)
     if m:
         res["solver_s"] = float(m.group(1))
-    if "Status: ERROR" in text or "std::bad_alloc" in text or "Out of memory" in text or "memory allocation of" in text:
+    if "Status: ERROR" in text or "ran out of memory" in text or "std::bad_alloc" in text or "Out of memory" in text or "memory allocation of" in text:
         res["oom"] = True
     funcs = set()
     for m in CHECK_RE.finditer(text):
@@ -140,12 +140,49 @@ def parse_kani_log(text):
 
 def cbmc_args(h):
     extra = []
-    if h.get("unwindset") or h.get("cbmc_args"):
+    uw = list(h.get("unwindset", [])) + list(h.get("_resolved_recursion", []))
+    if uw or h.get("cbmc_args"):
         extra += ["-Z", "unstable-options", "--cbmc-args"]
-        if h.get("unwindset"):
-            extra += ["--unwindset", ",".join(h["unwindset"])]
+        if uw:
+            extra += ["--unwindset", ",".join(uw)]
         extra += h.get("cbmc_args", [])
     return extra
+
+
+GOTO_FN_RE = re.compile(r"^(?P<dem>.*) /\* (?P<mangled>_R[^ ,]+),")
+
+
+def resolve_recursion(h, kf_features, cdir):
+    """`recursion`: {demangled-prefix: depth}. #[kani::unwind] also bounds recursion and CBMC
+    inlines mutually recursive functions (2*unwind)^depth times; so recursion is bounded
+    separately (CBMC's recursion unwinding assertion stays on: a too-small depth FAILS).
+    Mangled names are read back from the goto binary of this very build."""
+    rec = h.get("recursion")
+    if not rec:
+        return True
+    log = os.path.join(LOGS, h["name"] + ".codegen.log")
+    cmd = kani_cmd(dict(h, _resolved_recursion=[], unwindset=[], cbmc_args=[]), kf_features) + ["--only-codegen"]
+    rc, timed_out, _ = run_with_caps(cmd, cdir, log, 1200, 0)
+    base = os.path.join(WORK, "k-" + h["crate"])
+    cands = []
+    for root, _, files in os.walk(base):
+        for f in files:
+            if f.endswith(h["name"] + ".symtab.out"):
+                cands.append(os.path.join(root, f))
+    if not cands:
+        return False
+    symtab = max(cands, key=os.path.getmtime)
+    out = subprocess.run(["goto-instrument", "--list-goto-functions", symtab], capture_output=True, text=True).stdout
+    resolved = []
+    for line in out.splitlines():
+        m = GOTO_FN_RE.match(line)
+        if not m:
+            continue
+        for prefix, depth in rec.items():
+            if m.group("dem").startswith(prefix):
+                resolved.append(f"{m.group('mangled')}:{depth}")
+    h["_resolved_recursion"] = sorted(set(resolved))
+    return bool(resolved)
 
 
 def kani_cmd(h, kf_features, playback=None):
@@ -185,6 +222,9 @@ def run_harness(h, tier, kf_features):
     cdir = prepare_crate(h["crate"])
     log = os.path.join(LOGS, h["name"] + ".log")
     timeout_s = h.get("timeout", 600 if tier == "quick" else 2400)
+    if not resolve_recursion(h, kf_features, cdir):
+        return {"name": h["name"], "engine": "K", "crate": h["crate"], "wall_s": 0, "status": "inconclusive",
+                "reason": "could not resolve recursion symbols in the goto binary", "log": log}
     rc, timed_out, wall = run_with_caps(kani_cmd(h, kf_features), cdir, log, timeout_s, h.get("mem_gb", 14))
     text = open(log).read()
     r = parse_kani_log(text)
@@ -226,8 +266,9 @@ def replay(h, prop, kf_features):
     (dev profile) against the real crates + mock. Returns (reproduced, replay_path)."""
     cdir = prepare_crate(h["crate"])
     log = os.path.join(LOGS, h["name"] + ".playback.log")
+    # the driver itself needs a lot of memory to decode the trace: generous cap here
     rc, timed_out, _ = run_with_caps(kani_cmd(h, kf_features, playback="print"), cdir, log,
-                                     h.get("timeout", 1200) * 2, h.get("mem_gb", 14))
+                                     h.get("timeout", 1200) * 2, 40)
     text = open(log).read()
     blocks = re.findall(r"Concrete playback unit test for `[^`]*`:\n```\n(.*?)```", text, re.S)
     # one block per failed check and per satisfied cover; we want a failed (non-cover) check
